@@ -26,6 +26,7 @@ RULE += ("  " + 'Also: a server-wide write limit so that sessions end while repl
 RULE += ("  " + 'Also: a re-login while a transfer of the session is in flight, then the session vanishes.')
 RULE += ("  " + 'Also (round 7): peers beyond the server-wide limit whose first command(s) are in the socket buffer when the server accepts the connection (simnet early data), with and without a write limit: the refusal is one 421 and EOF, and while it is on its way an admitted session can log in to an account with limit 1.')
 RULE += ("  " + 'Also (round 8): one users list in two Server objects (the second built only, or started and used): each keeps its own count.')
+RULE += ("  " + 'Also (round 10): a user manager that awaits AFTER it gave the slot back (logout_after); the session is cut or the server closed at every event of a re-login (same, other, unknown account).')
 ASSUMPTIONS = ["counter values are read from AvailableConnections.value (read-only); the black-box re-admission check does not "
                "depend on them", "MemoryUserManager"]
 REQUIRED_MONITORS = ["blackbox_readmission", "bound_at_events"]  # counter reads and the contract use internals and are optional
